@@ -9,7 +9,7 @@ var c03Chain = []string{".tail()", ".skip(1)", ".skip(0)", ".take(0)", ".take(1)
 	".select($this)", ".distinct()", ".exclude(%W)", ".intersect(%W)", ".combine(%W)", ".union(%W)", ".ofType(string)", ".ofType(HumanName)",
 	".children()", ".descendants()", ".repeat($this)", ".single()", ".idf()", ".trace('x')", "[0]", "[1]", ".y()", ".skip(2)", ".tail().tail()"}
 
-var c03Tail = []string{" & 'x'", " & %W", "", "", ".count()", " = %W", ".supersetOf(%W)", ".subsetOf(%W)", ".toString()", ".exists()", ".empty()", " | %W", ".isDistinct()", ".allTrue()", ".select($this & 'z')", ".where($this = %W)"}
+var c03Tail = []string{" & 'x'", " & %W", "", "", ".count()", " = %W", ".supersetOf(%W)", ".subsetOf(%W)", ".toString()", ".exists()", ".empty()", ".combine(%W).count()", ".isDistinct()", ".allTrue()", ".select($this & 'z')", ".where($this = %W)"}
 
 // varProgram builds a program that slices, filters and concatenates environment collections
 // (the shapes through which an evaluation could write into the caller's backing arrays).
